@@ -4,6 +4,7 @@ import (
 	"fmt"
 	"os"
 	"strings"
+	"testing/fstest"
 
 	"github.com/drshriveer/gtools/gconfig"
 	"gopkg.in/yaml.v3"
@@ -160,6 +161,7 @@ func wordRuns(t Tree, into map[string]bool) {
 // templates: also record the state of every environment variable a string of the document
 // could name (so that the model sees the environment the library saw).
 var (
+	fileSerial    int
 	flagSerial    int
 	usedFlagNames = map[string]bool{}
 )
@@ -221,6 +223,8 @@ func RunCase(out *gal.Out, kind string, in Input, orc *Oracle, extraKeys []strin
 		c.Env[k] = v
 	}
 	var cfg *gconfig.Config
+	var fileCfgs []*gconfig.Config
+	fileDiff := ""
 	WithEnv(in.Env, func() {
 		if templates {
 			names := map[string]bool{}
@@ -251,6 +255,32 @@ func RunCase(out *gal.Out, kind string, in Input, orc *Oracle, extraKeys []strin
 			}
 			c.Load = "ok"
 		}()
+		// the other entry point: FromFile on the same bytes (and, every fourth case, on the same
+		// document behind more than 1 MiB of comment lines) must load what FromBytes loads
+		if b != nil && (c.Load == "ok" || c.Load == "err") {
+			fileSerial++
+			variants := [][]byte{text}
+			if fileSerial%4 == 0 {
+				variants = append(variants, append([]byte(strings.Repeat("# "+strings.Repeat("padding ", 15)+"\n", 9000)), text...))
+			}
+			for _, data := range variants {
+				func() {
+					defer func() {
+						if r := recover(); r != nil {
+							fileDiff = fmt.Sprintf("FromFile panicked on a file of %d bytes: %v", len(data), r)
+						}
+					}()
+					fc, ferr := b.FromFile(fstest.MapFS{"conf/c.yaml": &fstest.MapFile{Data: data}}, "conf/c.yaml")
+					if (ferr != nil) != (c.Load == "err") {
+						fileDiff = fmt.Sprintf("FromFile on a file of %d bytes: error %v, FromBytes on the same document: %s", len(data), ferr, c.Load)
+						return
+					}
+					if ferr == nil {
+						fileCfgs = append(fileCfgs, fc)
+					}
+				}()
+			}
+		}
 	})
 	// strings whose ParseGeneric the model needs: every map key and every environment value
 	strs := map[string]bool{}
@@ -290,6 +320,23 @@ func RunCase(out *gal.Out, kind string, in Input, orc *Oracle, extraKeys []strin
 		for _, k := range uniq(leaves, 30) {
 			c.Strs = append(c.Strs, getStr(cfg, k))
 		}
+		// the Configs loaded through FromFile answer like the one loaded through FromBytes
+		for _, fc := range fileCfgs {
+			for _, g := range c.Gets {
+				if o := getAny(fc, g.Key); fileDiff == "" && (o.Kind != g.Kind || (o.Val != nil && g.Val != nil && !Equal(*o.Val, *g.Val))) {
+					fileDiff = fmt.Sprintf("Get(%q) on the Config loaded by FromFile: %s, on the one loaded by FromBytes from the same document: %s", g.Key, o.Kind, g.Kind)
+				}
+			}
+			for i, d := range in.Dims {
+				if i < len(c.DimVals) && Enums[d.Enum-1].GetDim(fc) != c.DimVals[i] && fileDiff == "" {
+					fileDiff = "GetDimension differs between the Configs loaded by FromFile and by FromBytes"
+				}
+			}
+		}
+	}
+	if fileDiff != "" {
+		// an observation no model of FromBytes can agree with: the case is a failing input
+		c.Load, c.LoadMsg = "panic", fileDiff
 	}
 	out.Case(GalCase(c), c)
 }
